@@ -868,11 +868,7 @@ func c11StyleOps(c *Cfg, goccy bool, s string) {
 		if ok && strings.HasSuffix(out, ": 1\n") {
 			ans = c11VisibleStyle(out)
 		}
-		tag := ""
-		if k := c11KnownClass(true, s, true, false); k == "goccy-question-mark-prefix-with-line-break" {
-			tag = k // the decision (single quotes) is the model's; the library then mangles the raw line break
-		}
-		c.OpTag("O", tag, fmt.Sprintf("style k %s 0 %s %s", H(s), lex, libq), ans)
+		c.OpTag("O", c11KnownKeyStyle(s), fmt.Sprintf("style k %s 0 %s %s", H(s), lex, libq), ans)
 		return
 	}
 	// yaml.v3 based encoder: the in-repo decision is legacyStrings/useQuote → double quotes,
